@@ -17,7 +17,8 @@ var explainAddenda = map[string]string{
 	"C13": "(full-read) no bare Read on a stream interface outside forwarding Read methods and counted read loops; (no-wrap) growing arithmetic on a wire-decoded value in a type of 32 bits or fewer is dominated by a bound test of the raw value; (all-fragments) every fragment ReadRecord reads is appended to the returned buffer or is itself the returned value on every path to a successful return.",
 	"C15": "(full-read, no-wrap, all-fragments) shared with C13.",
 	"C16": "(swap/stores-on-success) every successful return of UpdatePolicyOptions has stored the new policy, except behind a comparison that reads every PolicyOptions field; (admit-first) in HandleCall every call that reads the policy, directly or through a callee, is dominated by the admission (TryRLock success edge or RLock).",
-	"C20": "(join-before-restart) in Resize a call that reaches WaitGroup.Wait precedes the restart on every path on which the pool was running.",
+	"C17": "(idle-exempt) per-connection state other than lastActivity on which the idle sweep branches is cleared again on every path of the connection loop before the instruction that set it is reached again (a flag left set by one path keeps an idle connection out of the sweep for good).",
+	"C20": "(join-before-restart) in Resize a call that reaches WaitGroup.Wait precedes the restart on every path on which the pool was running; (received-resolved) in the worker every path from the receive of a task executes it and delivers the result (or finds ResultChan nil) before the worker returns or selects again — a received task is out of the queue, so no drain can resolve it.",
 	"C22": "(ack-on-success) handleWrite's NFS3_OK reply is reachable only from the edge on which the write call returned no error.",
 	"C23": "The advertised wtmax/wtpref are computed from TransferSize only by operations that cannot enlarge it (conversion, selection, constant cap, division, subtraction, shift right, mask); (record-limit) RecordMarkingReader.MaxRecordSize is only ever set to the constant the FSINFO cap is derived from.",
 	"C24": "(atomic-callee) every PolicyOptions field on which UpdatePolicyOptions can refuse is pinned by UpdateExportOptions to the current policy's value or validated there, by the same function, before the first mutation; (in-force) every TuningOptions field New reads to build or configure a component is also read from the updated record in applyTuningSideEffects; (defaults-before-effects) in UpdateTuningOptions the normalisation precedes applyTuningSideEffects.",
